@@ -76,12 +76,13 @@ class C12(XsProp):
                         k2 = rng.choice(pool if rng.random() < 0.6 or not pairs else [p_[0] for p_ in pairs])
                         if cells.source(cells.strip(k2)) is None:
                             continue
-                        pairs.append((cells.strip(k2), ('I', rng.randint(0, 99))))
+                        pairs.append((cells.strip(k2), rng.choice([('I', rng.randint(0, 99))] * 4 + [('N',), ('F',)])))
                     src = '{ %s} ! m' % ''.join('%s %s ' % (cells.source(v_), cells.source(k_)) for k_, v_ in pairs)
                     steps.append('eval %s | stack' % hexsrc(src))
                     ops.append(('literal', pairs))
                 elif r < 0.45:
-                    v = ('I', rng.randint(0, 99))
+                    # values of every kind - nil and flags included: a binding to nil is a binding (it counts, foreach visits it)
+                    v = rng.choice([('I', rng.randint(0, 99))] * 3 + [('N',), ('N',), ('F',), ('T',), ('I', 0), ('S', b'v')])
                     steps.append('push %s | push %s | eval %s | stack' % (cells.fmt(v), ktxt, hexsrc('m rot swap insert ! m')))
                     ops.append(('insert', k, v))
                 elif r < 0.75:
